@@ -178,7 +178,8 @@ def one(cases, lines, metas, rng, tier, ci):
         for _ in range(rng.randint(1, 2)):
             i = rng.randrange(ops["nT"])
             s = gen_se(rng, 0, ops, N)
-            lets.append((i, s, rng.random() < 0.5))
+            # the four scalar operator forms: T*s / s*T, T+s / s+T, T-s, s-T (the scalar is itself a function of the cores)
+            lets.append((i, s, rng.random() < 0.5, ["scale", "shift", "ssub", "rsub"][(ci // 3 + len(lets)) % 4]))
             ops = {"nT": ops["nT"] + 1, "nM": nM, "noshape": True}
     e0 = gen_se(rng, depth, ops, N)
     if lets:
@@ -190,19 +191,29 @@ def one(cases, lines, metas, rng, tier, ci):
 
     def prog_tt(env, lets=lets, e0=e0):
         env = {"T": list(env["T"]), "M": env["M"]}
-        for (i, s, left) in lets:
+        for (i, s, left, kind) in lets:
             sv = s.tt_fn(env)
-            env["T"].append(sv * env["T"][i] if left else env["T"][i] * sv)
+            x = env["T"][i]
+            if kind == "scale":
+                env["T"].append(sv * x if left else x * sv)
+            elif kind == "shift":
+                env["T"].append(sv + x if left else x + sv)
+            elif kind == "ssub":
+                env["T"].append(x - sv)
+            else:
+                env["T"].append(sv - x)
         return e0.tt_fn(env)
 
     def prog_dn(den, lets=lets, e0=e0):
         den = {"T": list(den["T"]), "M": den["M"]}
-        for (i, s, left) in lets:
-            den["T"].append(den["T"][i] * s.dn_fn(den))
+        for (i, s, left, kind) in lets:
+            c = s.dn_fn(den)
+            x = den["T"][i]
+            den["T"].append(x * c if kind == "scale" else x + c if kind == "shift" else x - c if kind == "ssub" else c - x)
         return e0.dn_fn(den)
     ltoks = []
-    for (i, s, left) in lets:
-        ltoks += [i] + s.toks
+    for (i, s, left, kind) in lets:
+        ltoks += [kind, i] + s.toks
     e = Node(([len(lets)] + ltoks if lets else []) + e0.toks, prog_tt, prog_dn, None)
     alltoks = ltoks + e0.toks
     # operands the head really depends on: variables of the head, and — through every let variable that is reached — the scaled operand
@@ -216,7 +227,7 @@ def one(cases, lines, metas, rng, tier, ci):
             continue
         reach.add(v)
         if v >= nT:
-            (li, ls, _) = lets[v - nT]
+            (li, ls, _, _) = lets[v - nT]
             todo += [li] + list(vars_of(ls.toks))
     usedT = sorted(v for v in reach if v < nT)
     reached_lets = [lets[v - nT][1].toks for v in reach if v >= nT]
@@ -225,7 +236,7 @@ def one(cases, lines, metas, rng, tier, ci):
     kind = "M" if (usedM and rng.random() < 0.4) else "T"
     oi = rng.choice(usedM if kind == "M" else usedT)
     ci_core = rng.randrange(d)
-    line = J("adp" if lets else "ad", nT, [tt_tokens(t) for t in Ts], nM, [tt_tokens(m) for m in Ms], kind, oi, ci_core, e.toks)
+    line = J("adk" if lets else "ad", nT, [tt_tokens(t) for t in Ts], nM, [tt_tokens(m) for m in Ms], kind, oi, ci_core, e.toks)
     box = {}
 
     def impl():
